@@ -271,7 +271,9 @@ def gen_db(rng, quick):
     if special == 'hash' and cols: cols[rng.randrange(len(cols))][0] = S('#1'); tags.add('name-starting-with-hash')
     if special == 'NA-name' and cols: cols[rng.randrange(len(cols))][0] = S('NA')
     if special == 'provisional': tags.add('provisional')
-    return [nech, rng.random() < .5, cols], '+'.join(sorted(tags)) or 'plain'
+    hist = rng.choice([1, 2]) if rng.random() < .3 else 0          # provisional columns in the history: UID != rank
+    if hist: tags.add('history')
+    return [nech, rng.random() < .5, cols, False, hist], '+'.join(sorted(tags)) or 'plain'
 def gen_dbgrid(rng, quick):
     ndim = rng.choice([1, 2, 2, 3])
     nx = [rng.choice([1, 2, 3, 4]) for _ in range(ndim)]
@@ -284,7 +286,9 @@ def gen_dbgrid(rng, quick):
     else: angles = [D(Fraction(rng.choice([30, 45, 10]))), D(Fraction(rng.choice([0, 20]))), D(Fraction(rng.choice([0, 5])))]; tag = 'rotated'
     addcoor = rng.random() < .7
     cols, tags = g_cols(rng, nech, True, None, used=(0,) if addcoor else ())
-    return [nx, dx, x0, angles, rng.random() < .5, addcoor, cols], tag + ''.join('+' + t for t in sorted(tags))
+    hist = rng.choice([1, 2]) if rng.random() < .3 else 0
+    if hist: tags.add('history')
+    return [nx, dx, x0, angles, rng.random() < .5, addcoor, cols, False, hist], tag + ''.join('+' + t for t in sorted(tags))
 
 # ---- Vario
 def gen_vario(rng, quick):
@@ -379,7 +383,9 @@ XMODEL = T(('~value', Lst('d')), ('~angles', Lst(Lst('d'))), ('hasAnam', 'b'))
 
 # ---- classes without a model: dump / reload / dump on the implementation, printed text, record traces
 def gq(rng, lo=-64, hi=64, den=64): return D(Fraction(rng.randint(lo, hi), den))
-def gen_dbline(rng, quick): return [rng.choice([1, 2, 3]), rng.choice([1, 2, 4]), rng.choice([2, 3, 5]), rng.randint(1, 10 ** 5)], ''
+def gen_dbline(rng, quick):
+    h = rng.random() < .3
+    return [rng.choice([1, 2, 3]), rng.choice([1, 2, 4]), rng.choice([2, 3, 5]), rng.randint(1, 10 ** 5), h], 'history' if h else ''
 def gen_dbgrapho(rng, quick):
     n = rng.choice([2, 4, 7])
     arcs = []; seen = set()
@@ -387,7 +393,8 @@ def gen_dbgrapho(rng, quick):
         i, j = rng.randrange(n), rng.randrange(n)
         if i != j and (i, j) not in seen: seen.add((i, j)); arcs.append([i, j, gq(rng, 1, 64)])
     if not arcs: arcs = [[0, 1, gq(rng, 1, 64)]]
-    return [n, [gq(rng) for _ in range(n)], [gq(rng) for _ in range(n)], [D(gdbl(rng, na=True, mag=False)) for _ in range(n)], arcs], 'n%d' % n
+    h = rng.random() < .3
+    return [n, [gq(rng) for _ in range(n)], [gq(rng) for _ in range(n)], [D(gdbl(rng, na=True, mag=False)) for _ in range(n)], arcs, h], 'n%d%s' % (n, '+history' if h else '')
 def lognormal(rng, n): return [D(Fraction(round(rng.lognormvariate(0, 1) * 64) + 1, 64)) for _ in range(n)]
 def gen_anamemp(rng, quick):
     return [rng.choice([10, 30, 100]), [] if rng.random() < .6 else D(Fraction(1, 8)), rng.random() < .4, rng.random() < .6, lognormal(rng, rng.choice([20, 60]))], ''
@@ -407,7 +414,14 @@ def gen_meshturbo(rng, quick):
     if rng.random() < .3 and min(nx) >= 3:
         # a few masked nodes, never so many that no mesh stays active (a fully masked mesh is written like an unmasked one)
         off = set(rng.sample(range(nech), rng.choice([1, 1, 2])))
-        sel = [D(Fraction(0 if k in off else 1)) for k in range(nech)]; tag = '+masked'
+        # at least one cell of the grid keeps all its corners (a selection that leaves no active mesh gives a mesh that is
+        # written like an unmasked one: degenerate object, left out)
+        import itertools
+        def node(idx): return sum(i * math.prod(nx[:d]) for d, i in enumerate(idx))
+        alive = any(all(node([i + c for i, c in zip(cell, corner)]) not in off for corner in itertools.product((0, 1), repeat=ndim))
+                    for cell in itertools.product(*[range(n - 1) for n in nx]))
+        if not alive: off = set()
+        sel = [D(Fraction(0 if k in off else 1)) for k in range(nech)] if off else []; tag = '+masked' if off else ''
     return [nx, [D(gdbl(rng, pos=True, mag=False)) for _ in range(ndim)], [D(gdbl(rng, mag=False)) for _ in range(ndim)], ang, rng.random() < .5, sel, rng.choice([0, 1])], 'ndim%d%s' % (ndim, tag)
 def gen_meshstd(rng, quick):
     if rng.random() < .6:
@@ -508,6 +522,7 @@ def fail_key(cls, case, what):
     if cls.name == 'Vario' and len(case[2]) > 10 and any(' ' in US(n) or US(n).startswith('#') for n in case[2][10]): return 'Db:column-name-needs-quoting'
     if cls.name == 'Vario' and case[2][2] in (1, 2, 9): return 'Vario:calcul-type-not-saved'         # regression
     if cls.name == 'Rule' and len(case[2][0]) == 1: return 'Rule:single-facies-rule-not-reloaded'
+    if cls.name == 'Table' and what == 'reload-fails' and (case[2][0] == 0 or case[2][1] == 0): return 'Table:table-without-rows-not-reloaded'
     if cls.name == 'NeighImage' and what == 'crash': return 'NeighImage:reload-writes-radius-out-of-bounds'  # regression
     if cls.name == 'DbLine' and case[2][2] < 2: return 'ASerializable:empty-vector-not-read-back'
     if cls.name == 'FracEnviron' and what == 'reload-fails' and not case[2][6] and case[2][7]: return 'ASerializable:empty-vector-not-read-back'
@@ -767,6 +782,15 @@ def main_part(ctx, quick, rng, runner, exe, env):
             rec, tag = cls.gen(rng, quick)
             cases.append([1, cls.cid, rec]); tags.append(tag)
             ctx.dist('%s:%s' % (cls.name, tag))
+    # directed pairs for the sequences: a Db, and a Db with the same columns (other values) whose UIDs differ from the ranks
+    seq_pairs = []
+    for _ in range(4 if quick else 30):
+        rec, tag = gen_db(rng, True)
+        if not rec[2] or rec[0] == 0 or 'name' in tag: continue
+        a = [rec[0], rec[1], rec[2], False, 0]
+        b = [rec[0], rec[1], [[col[0], col[1], col[2], [D(gdbl(rng, na=True)) for _ in range(rec[0])]] for col in rec[2]], False, rng.choice([1, 2])]
+        ca, cb = [1, 10, a], [1, 10, b]
+        seq_pairs.append((ca, cb)); cases += [ca, cb]; tags += ['pair-plain', 'pair-history']
     # the size family, spread among the other cases (the cases are run by groups, several groups at a time)
     size_target = {}
     sc = size_cases(); step = max(1, len(cases) // (len(sc) + 1))
@@ -926,6 +950,52 @@ def main_part(ctx, quick, rng, runner, exe, env):
                 ctx.violation('trace:%s' % cls.name, 'record trace of the reload differs from the trace of the dump: ' + e,
                               {'class': cls.name, 'recipe': sx_str(c), 'file': fileA}, found_input=True); found_input = True
     ctx.cov['disagreements'] = ndis
+    # ---- sequences in ONE process: every object of the sequence is built, then all are written, then all are reloaded.
+    # Writing an object after others must give the file it gives alone (the writer is a function of the object:
+    # theorem C08_writer_history_independent) and reloading it must give the same object.
+    where = {id(c): i for i, c in enumerate(cases)}
+    ok_alone = lambda i: impl[i] is not None and len(impl[i]) >= 11 and impl[i][0] and impl[i][2]
+    seqs = []
+    for ca, cb in seq_pairs:
+        ia, ib = where[id(ca)], where[id(cb)]
+        if ok_alone(ia) and ok_alone(ib): seqs.append([ia, ib, ia])
+    byclass = {}
+    for i, c in enumerate(cases):
+        if c[0] == 1 and ok_alone(i) and i not in size_target: byclass.setdefault(c[1], []).append(i)
+    nseq = 3 if quick else 25
+    for cid, idxs in byclass.items():
+        rng.shuffle(idxs)
+        for k in range(0, min(len(idxs) - 2, 3 * nseq), 3): seqs.append(idxs[k:k + 3])
+    allidx = [i for l in byclass.values() for i in l]
+    for _ in range(6 if quick else 60):          # mixed families
+        if len(allidx) >= 4: seqs.append(rng.sample(allidx, 4))
+    scases = [[6] + [[cases[i][1], cases[i][2]] for i in sq] for sq in seqs]
+    sres = run_impl_all(ctx, exe, 'p6', scases, env, chunk=8)
+    ctx.log('sequences done (%d)' % len(scases))
+    for sq, sc_, r in zip(seqs, scases, sres):
+        ctx.count(sx_str([6] + sq)); ctx.dist('sequence:%s' % '+'.join(sorted(set(BYID[cases[i][1]].name for i in sq))))
+        if r is None or len(r) != len(sq) or (r and isinstance(r[0], int)):
+            cls = BYID[cases[sq[-1]][1]]
+            phase = US(r[1]) if r and r[0] == -990 else repr(r)[:80]
+            ctx.violation('%s:second-write-in-process:crash' % cls.name, 'a sequence of objects that are each saved and reloaded alone without trouble fails in one process (%s)' % phase,
+                          {'sequence': sx_str(sc_)[:3000], 'how': 'harness/C08.cpp operation 6'}); found_input = True; continue
+        for pos, (i, e) in enumerate(zip(sq, r)):
+            cls = BYID[cases[i][1]]; alone = impl[i]
+            okd, ftxt, okl, G0, X0, G1, X1 = e
+            what = None
+            if not okd: what = 'dump-fails'
+            elif ftxt != alone[1]: what = 'file-differs'
+            elif not okl: what = 'reload-fails'
+            elif G1 != alone[5] or diffs(cls.X, X1, alone[6], undy, undy, same15): what = 'reload-differs'
+            if what:
+                fa, fs = US(alone[1]).split('\n'), US(ftxt).split('\n')
+                line = next((k for k, (x, y) in enumerate(zip(fa, fs)) if x != y), min(len(fa), len(fs)))
+                ctx.violation('%s:second-write-in-process:%s' % (cls.name, what),
+                              '%s written in position %d of a sequence of %d objects in one process: %s (first difference at line %d of the file: %r alone, %r in the sequence)'
+                              % (cls.name, pos + 1, len(sq), what, line + 1, fa[line][:80] if line < len(fa) else None, fs[line][:80] if line < len(fs) else None),
+                              {'class': cls.name, 'sequence': sx_str(sc_)[:6000], 'position': pos + 1,
+                               'how': 'harness/C08.cpp operation 6: build every object, dumpToNF each in turn, createFromNF each; compare with the same object saved alone (operation 1)'})
+                found_input = True
     # ---- container / prefix settings
     ccases = [[3, S(a), S(b), S(n)] for a, b, n in [('', '', 'plain.nf'), ('cont/', '', 'x.nf'), ('', 'pfx.', 'x.nf'), ('cont/', 'pfx.', 'x.nf'),
                                                      ('cont/', 'pfx.', 'abc'), ('', 'pfx.', 'ab'), ('cont/', '', 'a')]]
